@@ -121,6 +121,13 @@ def run(tier):
         dsw = tensor.Swap(Dim(2), Dim(2)) >> tensor.Box('g', Dim(2, 2), Dim(1), [x, 0, y * x, 1])
         suite.identity('tensor.Diagram.grad.swap_first', arr(total(dsw.grad(x))), diff_arr(dsw.eval(), x), extra=(x, y),
                        functions=['tensor.Diagram.grad', 'monoidal.Sum.upgrade'])
+    # a formal sum of tensor diagrams differentiates term by term
+    with suite.guard('tensor.Sum.grad', ['tensor.Sum.grad']):
+        ts = tensor.Box('v', Dim(1), Dim(2), [x ** 2, y]) + (tensor.Box('w', Dim(1), Dim(2), [y, x * y]))
+        suite.identity('tensor.Sum.grad', arr(total(ts.grad(x))), diff_arr(ts.eval(), x), extra=(x, y),
+                       functions=['tensor.Sum.grad'], what='gradient of a sum of tensor diagrams = derivative of its evaluation')
+        suite.identity('tensor.Sum.grad.other_symbol', arr(total(ts.grad(Symbol('z'))), like=[0, 0]), [0, 0],
+                       functions=['tensor.Sum.grad'])
     # bubbles inside a composite: the product rule must include the bubble's term
     hh = tensor.Box('h', Dim(2), Dim(2), [1, 2, 3, 4])
     gg = tensor.Box('g', Dim(2), Dim(2), [x ** 2, 1, y, x])
